@@ -63,8 +63,11 @@ inductive SetLimitRes where
   | errTransportParameter                   -- limit < 2
   | ok (l : Local) (frames : List NewCid)   -- `frames.length` = number of loop iterations (C04 item 9)
 
-/-- number of iterations of `for _ in largest()..active_cid_limit` -/
-def setLimitCost (l : Local) (n : Nat) : Nat := n - l.largest
+/-- `MAX_ISSUED_ACTIVE_CIDS` of `local_cid.rs` (`fix-C04-setlimit-cap.diff`; checked against the source by C04's `consts` line) -/
+def maxIssuedActiveCids : Nat := 64
+
+/-- number of iterations of `for _ in largest()..active_cid_limit.min(MAX_ISSUED_ACTIVE_CIDS)` -/
+def setLimitCost (l : Local) (n : Nat) : Nat := min n maxIssuedActiveCids - l.largest
 
 def setLimit (l : Local) (next : Nat) (n : Nat) : SetLimitRes :=
   if l.limit.isSome then .panic
@@ -270,7 +273,8 @@ inductive NewCidRes where
 * `pinned`  — the pinned tree: only the pre-test `seq - retire_prior_to > limit` on the frame's two fields;
 * `counted` — with `repo_patches/fix-C14-remote-limit.diff`: the pre-test, and the number of active ids is counted
   after the frame has been processed;
-* `exact`   — with `repo_patches/fix-C14-legal-issue.diff` on top: the count alone decides (no pre-test). -/
+* `exact`   — /repo HEAD: with `repo_patches/fix-C14-legal-issue.diff` on top (no pre-test: the count decides) and the
+  sequence-gap test of `fix-C04-newcid-seq-gap.diff` in front of the insert. -/
 inductive Tree where
   | pinned | counted | exact
   deriving DecidableEq, Repr
@@ -283,9 +287,22 @@ def Tree.count : Tree → Bool
   | .pinned => false
   | _ => true
 
+/-- the sequence-gap test of `fix-C04-newcid-seq-gap.diff` (committed before `fix-C14-legal-issue.diff`): part of `exact` -/
+def Tree.gap : Tree → Bool
+  | .exact => true
+  | _ => false
+
+/-- `MAX_SEQUENCE_GAP` of `remote_cid.rs` (checked against the source by C04's `consts` line) -/
+def maxSequenceGap : Nat := 4096
+
+/-- `seq.saturating_sub(cid_deque.largest()) > MAX_SEQUENCE_GAP.max(active_cid_limit)` -/
+def farAhead (s : Remote) (seq : Nat) : Bool := decide (seq - (s.coff + s.cdq.length) > max maxSequenceGap s.limit)
+
 /-- `recv_new_cid_frame` -/
+/- The code tests `seq < offset` (discard) before the gap; both refusals leave the state as it is and the gap test
+is guarded by `coff ≤ seq` here, so the order is immaterial and one branch serves both. -/
 def recvNewCid (fixed : Tree) (s : Remote) (seq rpt : Nat) (cid : Cid) : NewCidRes :=
-  if fixed.pre && seq - rpt > s.limit then .errLimit s
+  if (fixed.pre && decide (seq - rpt > s.limit)) || (fixed.gap && decide (s.coff ≤ seq) && s.farAhead seq) then .errLimit s
   else if seq < s.coff then .discarded
   else
     let (s1, _) := s.insertCid seq cid
